@@ -936,6 +936,20 @@ func (t *FnTrans) mapComps(mt *types.Map) (present string, presentSort string, k
 	return "M." + k + ".present", arraySort("Int", arraySort(ks, "Bool")), ks, true
 }
 
+// mapLenTerm: len(m) is the cardinality of the key set of m IN THE GIVEN STATE:
+// an uninterpreted function of the present-set, so that the length the code
+// reads and the length a clause mentions are the same term as long as no key
+// was added or removed in between (and unrelated otherwise).  A map with an
+// unmodelled key type has an arbitrary length.
+func (t *FnTrans) mapLenTerm(st *HeapState, mt *types.Map, m string) string {
+	comp, srt, ks, ok := t.mapComps(mt)
+	if !ok {
+		return t.declare(t.fresh("maplen"), t.mode.idxSort())
+	}
+	f := t.declareFun("map.card."+sanitize(ks), []string{arraySort(ks, "Bool")}, t.mode.idxSort())
+	return ite(eq(m, "0"), t.mode.intLit64(0, 64), sx(f, sx("select", t.heapGet(st, comp, srt), m)))
+}
+
 func (t *FnTrans) mapValComps(mt *types.Map) []compDesc {
 	return t.flatComps(mt.Elem())
 }
